@@ -201,6 +201,7 @@ def compile_layout(arg: dict) -> dict:
         out["macros"] = {k: list(v) for k, v in macro_paths(c).items()}
         out["log"] = log
         out["tree"] = tree if len(files) > 1 or arg.get("dirs") else [root, os.path.dirname(main), main]
+        out["tree_files"] = [x for x in out["tree"] if os.path.isfile(x)]
         out["cwd"] = os.getcwd()
         out = unroot(out)
     finally:
@@ -211,3 +212,38 @@ def compile_layout(arg: dict) -> dict:
 
 def compile_layouts(args: list[dict]) -> list[dict]:
     return [compile_layout(a) for a in args]
+
+
+def resolve_many(arg: dict) -> dict:
+    """direct calls of the real `_resolve_imported_file` on a temporary tree.
+    arg: {"files": [rel], "dirs": [rel], "queries": [{"dir", "lookup": [...], "imports": [...]}], "run"}; `{ROOT}` = the tree's root"""
+    import shutil
+    import tempfile
+    from explorerscript.ssb_converting.ssb_compiler import ExplorerScriptSsbCompiler
+    root = os.path.realpath(tempfile.mkdtemp(prefix=TMP_PREFIX + str(arg.get("run", "x")) + "_", dir="/tmp"))
+    assert root.startswith("/tmp/") and "/repo" not in root and "/verif" not in root
+    try:
+        for d in arg.get("dirs", []):
+            os.makedirs(os.path.join(root, d), exist_ok=True)
+        for rel in arg["files"]:
+            p = os.path.join(root, rel)
+            os.makedirs(os.path.dirname(p), exist_ok=True)
+            with open(p, "w") as fh:
+                fh.write("")
+        tree = []
+        for dp, _dns, fns in os.walk(root):
+            tree.append(dp)
+            tree += [os.path.join(dp, f) for f in fns]
+        answers = []
+        for q in arg["queries"]:
+            c = ExplorerScriptSsbCompiler(PERF_VAR, [lp.replace(ROOT_TOKEN, root) for lp in q["lookup"]])
+            c.imports = [i.replace(ROOT_TOKEN, root) for i in q["imports"]]
+            try:
+                r = c._resolve_imported_file(q["dir"].replace(ROOT_TOKEN, root))
+                answers.append({"ok": [p.replace(root, ROOT_TOKEN) for p in r]})
+            except BaseException as e:  # noqa
+                answers.append({"err": type(e).__name__, "msg": str(e)[:200].replace(root, ROOT_TOKEN)})
+        return {"tree": [t.replace(root, ROOT_TOKEN) for t in tree], "tree_files": [t.replace(root, ROOT_TOKEN) for t in tree if os.path.isfile(t)],
+                "answers": answers, "cwd": os.getcwd()}
+    finally:
+        shutil.rmtree(root, ignore_errors=True)
